@@ -1390,9 +1390,12 @@ fn plain_q(r: &mut Rng) -> Qd {
 fn gen_c12(r: &mut Rng, index: u64) -> String {
     let q = plain_q(r);
     let buf = *r.pick(&[512usize, 513, 1232, 4096]);
-    let h = plain_hdr(r, index, "udp");
+    // half of the cases with NoTcp: whatever datagram the receive loop accepts is handed out as is
+    let strat12 = *r.pick(&["udp", "notcp"]);
+    let h = plain_hdr(r, index, strat12);
     let n = r.below(9);
-    let mut e0: Vec<String> = (0..n).map(|_| decoy(r, &q, buf)).collect();
+    let tc4 = if strat12 == "notcp" { 2 } else { 1 };
+    let mut e0: Vec<String> = (0..n).map(|_| decoy_tc(r, &q, buf, tc4)).collect();
     let mut udp;
     if r.chance(4, 5) {
         let fin = match r.below(10) {
@@ -1483,13 +1486,22 @@ fn seg_hex(stream: &[u8], has_id: bool, a: usize, b: usize) -> String {
 /// stream (prefix + body) is cut into 1..6 segments at random points, also inside the prefix and
 /// with 1-octet segments, optionally with 20 ms pauses in between. Variants: everything sent, then
 /// wait for the client to close; everything sent, then close; close early after k octets (k = 0,
-/// 1, 2, somewhere in the body, one octet short); extra octets after the body.
+/// 1, 2, somewhere in the body, one octet short); extra octets after the body. One case in three
+/// gets to TCP through the fallback (strategy Udp + a truncated matching UDP answer).
 fn gen_c14(r: &mut Rng, index: u64) -> String {
     let q = plain_q(r);
     let buf = *r.pick(&[512usize, 600, 1024]);
     let n = *r.pick(&[0usize, 1, 2, 12, 17, 511, 512, buf - 1, buf, buf + 1, 1000, 65535]);
-    let mut h = plain_hdr(r, index, "tcp");
+    // one case in three reaches TCP through the fallback: strategy Udp, a truncated matching answer
+    let via_udp = r.chance(1, 3);
+    let mut h = plain_hdr(r, index, if via_udp { "udp" } else { "tcp" });
     h.edns = "off".to_string();
+    let udp_script: Vec<Vec<String>> = if via_udp {
+        let fl = if r.chance(1, 2) { resp_flags(r, true) } else { 0x8380 };
+        vec![vec![format!("IIII{}", hx(&msg_tail(fl, 1, 0, &q.question(false), &[])))]]
+    } else {
+        vec![]
+    };
     // body
     let ans = a_records(r, 2);
     let mut body: Vec<u8> = vec![0xab, 0xcd];
@@ -1577,7 +1589,7 @@ fn gen_c14(r: &mut Rng, index: u64) -> String {
             q,
             buf,
             drop: None,
-            udp: vec![],
+            udp: udp_script,
             tcp: vec![items],
         }],
     )
@@ -1898,7 +1910,10 @@ fn gen_c16(r: &mut Rng, index: u64) -> String {
             }
             6 => {
                 let p = prev.clone().unwrap();
-                let dup = format!("PPPP{}", hx(&msg_tail(0x8180, 1, 0, &p.question(false), &[])));
+                // the late answer to the previous query may carry any flags, TC included
+                let dtc = r.chance(1, 2);
+                let dfl = if r.chance(1, 2) { resp_flags(r, dtc) } else { 0x8180 };
+                let dup = format!("PPPP{}", hx(&msg_tail(dfl, 1, 0, &p.question(false), &[])));
                 let n = r.range(1, 2);
                 if r.chance(1, 2) {
                     api = "rrset";
